@@ -30,7 +30,13 @@ def project(wf, pres, rec, outc):
         return run
     conn = sqlite3.connect(wf.db)
     try:
-        proj, problems, _ = P.project_classification(conn, pres, rec)
+        try:
+            proj, problems, _ = P.project_classification(conn, pres, rec)
+        except Exception as e:  # noqa: stored epochs that are not where this presentation put the samples
+            first = conn.execute("SELECT min(epoch) FROM grid_time").fetchone()[0]
+            run["status"] = "stored epochs cannot be re-based to sample indices (%s): first grid instant %s, expected %s" % (
+                type(e).__name__, first, pres.e0)
+            return run
         run["flags"] = json.dumps([[list(p["flags"].get(q + 1, ())) for q in range(len(st["rain"]))]
                                    for p, st in zip(proj, rec)])
         for key in ("storm", "rise", "pair", "inter"):
